@@ -297,6 +297,45 @@ def search(rep: C.Report, tier: str, broken):
         if not float(th.freeEnergyLow(below).veffValue) < float(th.freeEnergyHigh(below).veffValue):
             rep.violation("low-temperature phase is not favoured just below the returned critical temperature",
                           {"params": params, "Tc": Tc}, finding_key=KEY_TC_DIR)
+    # findCriticalTemperature tracing the phases ITSELF (untraced FreeEnergy objects), paranoid on and off, over a range that
+    # extends past both spinodals: tables must stop at the spinodals (flagged), Tc must be the closed-form crossing
+    import WallGo
+    from WallGo.thermodynamics import Thermodynamics
+    from WallGo.fields import Fields
+    for params in (({},) if tier == "quick" else ({}, dict(E=0.07, lam=0.12))):
+        for paranoid in (True, False):
+            ref = models.toy1_class()(**params)
+            Tc0, T0_, T1_ = ref.Tc(), ref.T0, ref.T1()
+            Tn = T0_ + 0.6 * (Tc0 - T0_)
+            ref.configureDerivatives(WallGo.VeffDerivativeSettings(temperatureVariationScale=0.1 * T0_, fieldValueVariationScale=float(ref.phiBroken(Tn))))
+            th = Thermodynamics(ref, Tn, Fields([float(ref.phiBroken(Tn))]), Fields([0.0]))
+            lo, hi = 0.85 * T0_, 1.2 * T1_
+            for fe in (th.freeEnergyHigh, th.freeEnergyLow):
+                fe.minPossibleTemperature[0], fe.maxPossibleTemperature[0] = lo, hi
+            dT = 0.1 * T0_ * 1e-6 ** 0.25
+            info = {"model": "toy1", "params": params, "paranoid": paranoid, "requested_range": [lo, hi], "spinodals": [T0_, T1_],
+                    "how": "Thermodynamics on UNTRACED FreeEnergy objects; findCriticalTemperature(dT, 1e-6, paranoid) traces them itself"}
+            rep.case(key=("Tc-self-traced", str(sorted(params.items())), paranoid))
+            rep.count("findCriticalTemperature self-traced")
+            try:
+                Tc = th.findCriticalTemperature(dT=dT, rTol=1e-6, paranoid=paranoid)
+            except Exception as ex:  # noqa: BLE001
+                rep.violation(f"findCriticalTemperature on untraced phases raised {type(ex).__name__}", dict(info, error=str(ex)[:200]),
+                              finding_key="C11:Tc-self-traced-raises")
+                continue
+            lowT = np.asarray(th.freeEnergyLow._interpolationPoints)   # pylint: disable=protected-access
+            highT = np.asarray(th.freeEnergyHigh._interpolationPoints)   # pylint: disable=protected-access
+            info.update(Tc=Tc, exact=Tc0, low_table=[float(lowT.min()), float(lowT.max())], high_table=[float(highT.min()), float(highT.max())],
+                        low_flags=[bool(th.freeEnergyLow.minPossibleTemperature[1]), bool(th.freeEnergyLow.maxPossibleTemperature[1])],
+                        high_flags=[bool(th.freeEnergyHigh.minPossibleTemperature[1]), bool(th.freeEnergyHigh.maxPossibleTemperature[1])])
+            if lowT.max() > T1_ * (1 + 1e-6) or highT.min() < T0_ * (1 - 1e-6):
+                rep.violation("a phase traced by findCriticalTemperature is tabulated beyond its spinodal", info, finding_key="C11:beyond-spinodal")
+            elif not (th.freeEnergyLow.maxPossibleTemperature[1] and th.freeEnergyHigh.minPossibleTemperature[1]):
+                rep.violation("a phase disappears inside the range traced by findCriticalTemperature but the end is not flagged", info,
+                              finding_key="C11:flag-missing:self-traced")
+            if abs(Tc - Tc0) > 1e-5 * Tc0:
+                rep.violation("critical temperature (phases traced by findCriticalTemperature itself) is not where the free energies cross",
+                              info, finding_key="C11:Tc-value")
     # direction: swap the roles of the phases (the labelled low-T phase is favoured ABOVE the crossing)
     th, model, info = models.make_thermo("toy1", {}, TnFrac=0.6, tminFrac=0.8, tmaxFrac=1.12, key="swapped-for-C11")
     th.freeEnergyHigh, th.freeEnergyLow = th.freeEnergyLow, th.freeEnergyHigh
